@@ -273,10 +273,23 @@ func runC01(c *Collector, r *Rng, thorough bool) {
 				env, err := cose.SignHashEnvelope(r, signer, h, cose.HashEnvelopePayload{HashAlgorithm: cose.AlgorithmSHA256, HashValue: hv, Location: "loc"})
 				if err == nil {
 					c.Eval("hashenvelope/"+k.alg.String(), hx(env), true)
-					if _, err := cose.VerifyHashEnvelope(verifier, env); err != nil {
+					if got, err := cose.VerifyHashEnvelope(verifier, env); err != nil {
 						var m cose.Sign1Message
 						if m.UnmarshalCBOR(env) == nil { // undecodable output is a data-model boundary (C08)
 							fail("hashenvelope", "hash envelope does not verify: "+err.Error(), rep)
+						}
+					} else if got != nil {
+						// the decoded envelope's headers re-issued for another artifact (another digest algorithm)
+						hv2 := digestOf(crypto.SHA384, payload)
+						env2, err := cose.SignHashEnvelope(r, signer, got.Headers, cose.HashEnvelopePayload{HashAlgorithm: cose.AlgorithmSHA384, HashValue: hv2, Location: "loc2"})
+						if err == nil {
+							c.Eval("hashenvelope-reissued/"+k.alg.String(), hx(env2), true)
+							got2, err := cose.VerifyHashEnvelope(verifier, env2)
+							if err != nil {
+								fail("hashenvelope-reissued", "a hash envelope signed with the headers of a decoded one does not verify: "+err.Error(), rep)
+							} else if ha, _ := got2.Headers.Protected.PayloadHashAlgorithm(); ha != cose.AlgorithmSHA384 || !bytes.Equal(got2.Payload, hv2) {
+								fail("hashenvelope-reissued", fmt.Sprintf("re-issued hash envelope carries digest algorithm %v and digest %x, signed for SHA-384 and %x", ha, got2.Payload, hv2), rep)
+							}
 						}
 					}
 				}
@@ -375,6 +388,9 @@ func runC03(c *Collector, r *Rng, thorough bool) {
 			tagged := r.Bool()
 			h := genGoHeaders(r, BucketCfg{Max: 4, Csig: 1}, k.alg, true, false)
 			m := &cose.Sign1Message{Headers: h, Payload: r.Bytes(1 + r.Intn(30))}
+			if i%5 == 4 {
+				m.Payload = []byte{} // present, zero octets
+			}
 			if err := m.Sign(r, ext, signer); err != nil {
 				continue
 			}
@@ -567,6 +583,12 @@ func runC03(c *Collector, r *Rng, thorough bool) {
 					half := len(orig) / 2
 					variants["sig-der"] = derRS(new(big.Int).SetBytes(orig[:half]), new(big.Int).SetBytes(orig[half:]))
 					variants["sig-halves-swapped"] = append(append([]byte{}, orig[half:]...), orig[:half]...)
+					// the same integers r and s in another form: both halves padded / stripped alike
+					variants["sig-both-halves-padded-1"] = append(append(append([]byte{0}, orig[:half]...), 0), orig[half:]...)
+					variants["sig-both-halves-padded-2"] = append(append(append([]byte{0, 0}, orig[:half]...), 0, 0), orig[half:]...)
+					if orig[0] == 0 && orig[half] == 0 {
+						variants["sig-both-halves-stripped"] = append(append([]byte{}, orig[1:half]...), orig[half+1:]...)
+					}
 				}
 				for name, v := range variants {
 					sg.Str = v
